@@ -288,3 +288,64 @@ package deflate
 //@   ensures[C16 level-valid] (err != nil) == (level < -2 || level > 9)
 //@   ensures[C16 ctor-inv] err == nil ==> w != nil && wOK(w) && w.err == nil && !wClosed(w) && !wStuck(w)
 //@   ensures[C01 dict-delegates] err == nil && dict != nil ==> w.w != nil && w.lc == nil
+
+// ---------------------------------------------------------------------------
+// tokens and distance symbols (RFC 1951 section 3.2.5)
+// ---------------------------------------------------------------------------
+
+// number of extra bits and base distance of distance symbol s (0..29), as in RFC 1951
+//@ pure distXBits(s uint32) uint32 = s < 4 ? 0 : s/2 - 1
+//@ pure distBase(s uint32) uint32 = s < 4 ? s + 1 : ((2 + (s & 1)) << (s/2 - 1)) + 1
+
+//@ func getDistSymbol
+//@   requires 1 <= dist && dist <= 32768
+//@   modifies nothing
+//@   ensures[C01 C19 dist-roundtrip] sym < 30 && extraBits < uint32(1)<<distXBits(sym) && distBase(sym) + extraBits == dist
+
+//@ func newToken
+//@   modifies nothing
+//@   ensures[C01 fields] uint32(result) == litLen | dist<<10 | extra<<19
+
+//@ func (*token).Extract
+//@   modifies nothing
+//@   ensures[C01 fields] litLen == uint32(*c) & 1023 && dist == (uint32(*c) >> 10) & 511 && distExtra == uint32(*c) >> 19
+
+//@ func compare
+//@   requires maxLength >= 8 ==> 0 <= prev && prev <= curr && curr <= len(input) && maxLength <= len(input) && curr + maxLength <= len(input) && len(input) <= 1073741824
+//@   modifies nothing
+//@   ensures[C01 eq-prefix] 0 <= match && (maxLength >= 8 ==> match <= maxLength) && (maxLength < 8 ==> match == 0)
+//@   ensures[C01 eq-prefix] forall k :: 0 <= k && k < match ==> input[prev+k] == input[curr+k]
+//@   loop 1 invariant 0 <= i && i <= max && i % 8 == 0 && max == maxLength & (^7) && (forall k :: 0 <= k && k < i ==> input[prev+k] == input[curr+k])
+//@   loop 2 invariant 0 <= temp && temp <= 7 && i + temp == maxLength && 0 <= i && (forall k :: 0 <= k && k < i ==> input[prev+k] == input[curr+k])
+
+// ---------------------------------------------------------------------------
+// lz77 match finder (Go implementation)
+// ---------------------------------------------------------------------------
+
+// posInv: stored positions never lie ahead of the current position while the window has not been slid
+// (before the first slide positions are exact: no 16-bit wrap below 32768, processed == offset).
+//@ pure posInv(table []uint16, historySize int, relative int, offset int, slack int) bool = offset >= historySize || (relative == 0 && (forall h :: 0 <= h && h < len(table) ==> int(table[h]) <= offset + slack))
+//@ pure lzPre(table []uint16, mask uint32, historySize int, input []byte, processed int, offset int, tokens []token, maxToken int) bool = (mask == 4095 || mask == 32767) && len(table) == int(mask)+1 && (historySize == 4096 || historySize == 32768) && len(input) <= 65794 && 0 <= offset && offset <= len(input) && offset <= processed && processed <= 4611686018427387904 && 0 <= maxToken && maxToken <= 32767 && len(tokens) <= maxToken && cap(tokens) >= 32768
+
+//@ func lz77
+//@   requires lzPre(table, mask, historySize, input, processed, offset, tokens, maxToken) && hist != nil
+//@   requires[C01 pos-inv] posInv(table, historySize, processed - offset, offset, 0)
+//@   modifies table[*], hist.literalCodes, hist.distanceCodes, tokens[*]
+//@   alias ntokens tokens
+//@   ensures[C01 C16 progress] old(offset) <= nOffset && nOffset <= len(input) && len(tokens) <= len(ntokens) && len(ntokens) <= maxToken + 1 && cap(ntokens) == cap(tokens)
+//@   ensures[C01 C10 consumed] len(ntokens) <= maxToken ==> (flush ==> nOffset == len(input)) && (!flush ==> nOffset + 8 >= len(input))
+//@   ensures[C01 pos-inv] posInv(table, historySize, processed - old(offset), nOffset, 0)
+//@   assert call append 3 [C01 C19 match-token] 4 <= matchLength && matchLength <= 258 && 1 <= dist && int(dist) <= historySize && int(dist) <= offset && offset + matchLength <= len(input)
+//@   assert call append 3 [C01 match-bytes] forall k :: 0 <= k && k < matchLength ==> input[offset-int(dist)+k] == input[offset+k]
+//@   assert call append 3 [C01 C19 match-symbols] lengthSymbol == matchLength + 254 && distSymbol < 30 && extraBits < uint32(1)<<distXBits(distSymbol) && distBase(distSymbol) + extraBits == dist
+//@   assert call append 2 [C01 C19 run-token] 1 <= dist && int(dist) <= historySize && int(dist) <= offset - 258 && lengthSymbol == 512 && distSymbol < 30 && extraBits < uint32(1)<<distXBits(distSymbol) && distBase(distSymbol) + extraBits == dist
+//@   assert call append 2 [C01 run-bytes] forall k :: 0 <= k && k < 258 ==> input[offset-258-int(dist)+k] == input[offset-258+k]
+//@   assert call append 1 [C01 literal] 1 <= offset && offset <= len(input) && lit == uint32(input[offset-1])
+//@   assert call append 4 [C01 flush-literal] 0 <= offset && offset < len(input)
+//@   loop 1 invariant old(offset) <= offset && offset <= len(input) && end == len(input) - 8 && relative == processed - old(offset) && len(tokens) <= maxToken && sameobj(tokens, old(tokens)) && cap(tokens) == old(cap(tokens)) && len(tokens) >= old(len(tokens))
+//@   loop 1 invariant posInv(table, historySize, relative, offset, 0)
+//@   loop 2 invariant 0 <= i && i <= 3 && posInv(table, historySize, relative, offset, 2)
+//@   loop 3 invariant int(repeat) <= 300 && offset == atentry(offset) + 258*int(repeat) && matchLength == atentry(matchLength) - 258*int(repeat) && offset <= len(input) && matchLength <= len(input) && offset + matchLength <= end && end == len(input) - 8 && matchLength >= 0 && len(tokens) <= maxToken && sameobj(tokens, old(tokens)) && cap(tokens) == old(cap(tokens)) && len(tokens) >= old(len(tokens)) && 1 <= dist && int(dist) <= historySize && int(dist) <= offset
+//@   loop 3 invariant forall k :: 0 <= k && k < matchLength ==> input[offset-int(dist)+k] == input[offset+k]
+//@   loop 4 invariant 0 <= i && i <= 3 && posInv(table, historySize, relative, offset, 2)
+//@   loop 5 invariant old(offset) <= offset && offset <= len(input) && len(tokens) <= maxToken && sameobj(tokens, old(tokens)) && cap(tokens) == old(cap(tokens)) && len(tokens) >= old(len(tokens)) && posInv(table, historySize, relative, offset, 0) && offset + 8 >= len(input)
